@@ -78,6 +78,9 @@ FIXED = [
     ("C19", ["thermal_trip_point_rescaled"], "fix: sensors_temperatures() divided thermal zone thresholds", "zone with >= 2 trip points"),
     ("C19", ["battery_exception:FileNotFoundError:no_power_supply_class_dir"], "fix: sensors_battery() raised FileNotFoundError", "no /sys/class/power_supply"),
     ("C19", ["cpu_freq_current_off_by_1khz:cpuinfo_mhz_float_truncation"], "fix: cpu_freq() truncated the /proc/cpuinfo frequency", "cpu MHz 1034.091"),
+    ("C19", ["cpu_count_logical_wrong:arm_old"], "fix: cpu_count() counted the ARM 'Processor : <model>' line", "old-ARM /proc/cpuinfo with sysconf failing: 2 CPUs -> 3"),
+    ("C19", ["cpu_freq_percpu_length_wrong:s390x_static_mhz_line"], "fix: cpu_freq() listed every s390x CPU twice", "'cpu MHz dynamic' + 'cpu MHz static' per CPU"),
+    ("C19", ["fans_exception:ValueError:unreadable_or_missing_input_present"], "fix: sensors_fans() failed on a fan whose reading cannot be parsed", "empty / 'N/A' fanN_input"),
     ("C20", ["windows_broadcast_discarded"], "fix: net_if_addrs() on Windows computed the broadcast address", "192.168.1.10/255.255.255.0 -> broadcast None"),
     ("C20", ["doc_unqualified_name_missing:STATUS_WAKE_KILL", "doc_promised_name_missing:netbsd:STATUS_SUSPENDED"],
      "fix: export the documented STATUS_WAKE_KILL and STATUS_SUSPENDED", "psutil.STATUS_WAKE_KILL -> AttributeError although documented and returned by status()"),
